@@ -19,7 +19,7 @@ _qc = itertools.count(1)
 
 DSL_NAMES = {"forall", "exists", "forall_range", "exists_range", "forall_keys", "exists_key", "forall_int",
              "forall_of", "exists_of", "implies", "iff", "ite", "same", "type_is", "old", "pre", "dpos", "dpos_exact", "dsize",
-             "opt_val", "str_of_int", "type_name", "str_of_type", "result_is_fresh", "uf", "fpow", "exc_arg"}
+             "opt_val", "str_of_int", "type_name", "str_of_type", "result_is_fresh", "uf", "fpow", "exc_arg", "calls", "call_kw", "call_pos", "call_seq"}
 
 
 def _mentions_any(t) -> bool:
@@ -237,7 +237,7 @@ class SpecSet:
         def ty(s, m=None):
             if isinstance(s, T.Ty):
                 return s
-            if s.startswith("opaque:"):
+            if s.startswith("opaque:") and s[7:].isidentifier():
                 return T.Opaque(s[7:])
             s = s.replace("opaque:", "Opaque__")
             node = ast.parse(s, mode="eval").body
@@ -762,6 +762,31 @@ class DslMixin:
             t = self.w.type_const(v.name) if isinstance(v, ClassRef) else v.term
             f = self.w.func(f"str<{self.w.sort(T.TYPE)}>", self.w.sort(T.TYPE), self.w.StrSort)
             return SV(f(t), T.STR)
+        if name in ("calls", "call_kw", "call_pos", "call_seq"):
+            # ghost call log of effectful calls on collaborators (OPAQUE_METHODS entries with log=True)
+            obj = self.evv(node.args[0])
+            meth = ast.literal_eval(node.args[1])
+            log = [r for r in self.st.__dict__.get("call_log", [])
+                   if r["method"] == meth and r["recv"] is not None and obj.term is not None
+                   and z3.eq(z3.simplify(r["recv"]), z3.simplify(obj.term))]
+            if name == "calls":
+                return SV(z3.IntVal(len(log)), T.INT)
+            k = ast.literal_eval(node.args[2])
+            if not (0 <= k < len(log)):
+                # no such call on this path: the expression denotes None (contracts guard it with calls(...) == n;
+                # spec conjunctions / disjunctions are evaluated eagerly)
+                return SV(None, T.NONE)
+            if name == "call_seq":
+                allc = self.st.__dict__.get("call_log", [])
+                return SV(z3.IntVal(next(i for i, r in enumerate(allc) if r is log[k])), T.INT)
+            if name == "call_kw":
+                v = log[k]["kwargs"].get(ast.literal_eval(node.args[3]))
+            else:
+                i = ast.literal_eval(node.args[3])
+                v = log[k]["args"][i] if i < len(log[k]["args"]) else None
+            if v is None:
+                return SV(None, T.NONE)  # the argument was not passed (or is not a value)
+            return v
         if name == "exc_arg":
             # exc_arg(e, i, "Type"): the i-th positional constructor argument of the raised exception e
             e = self.evv(node.args[0])
